@@ -95,6 +95,33 @@ def strong_falsifier(B, A):
     return t
 
 
+def wide_base(rng):
+    """beyond the usual bounds: 7-8 atoms, 9-12 conditionals or 5-7 layers (worlds are still enumerable)"""
+    if rng.random() < 0.4:
+        sig, conds = penguin_chain(rng, rng.randint(6, 7), max_atoms=8)
+        if rng.random() < 0.5:
+            conds.append((V('w'), V(sig[0])))
+            sig = sig + ['w'] if len(sig) < 8 else sig
+            if 'w' not in sig:
+                conds.pop()
+        return sig, conds
+    for _ in range(50):
+        s1, c1 = rand_base(rng, nat=4, ncond=rng.randint(4, 6), depth=rng.choice([0, 1, 2]), p_const=0.02)
+        s2, c2 = rand_base(rng, nat=rng.choice([3, 4]), ncond=rng.randint(4, 6), depth=rng.choice([0, 1, 2]), p_const=0.02)
+        if classify(s1, c1)[0] != 'strong' or classify(s2, c2)[0] != 'strong':
+            continue
+        m2 = dict(zip(NAMES, ['s', 't', 'u', 'v']))
+        sig = list(s1) + [m2[a] for a in s2]
+        conds = list(c1) + [(fml.rename(B, m2), fml.rename(A, m2)) for (B, A) in c2]
+        for _ in range(rng.randint(0, 2)):        # bridge rules between the halves, kept if still consistent
+            extra = (fml.rand_formula(rng, sig[len(s1):], 0, 0.0), fml.rand_formula(rng, sig[:len(s1)], 0, 0.0))
+            if classify(sig, conds + [extra])[0] == 'strong':
+                conds.append(extra)
+        rng.shuffle(conds)
+        return sig, conds
+    return penguin_chain(rng, 6, max_atoms=8)
+
+
 def multi_exception_base(rng):
     """class b with properties q_j; m exception classes e_j (penguin, kiwi, ...) each negating 'its'
     property: two layers, the upper one with several independent rules, so queries can force a TIE of
@@ -121,10 +148,10 @@ def multi_exception_base(rng):
     return sig, conds
 
 
-def penguin_chain(rng, levels):
+def penguin_chain(rng, levels, max_atoms=6):
     """exception hierarchy with `levels` layers: c0 > c1 > ... each level flips property p"""
     sig = ['c%d' % i for i in range(levels)] + ['p']
-    sig = sig[:6] if len(sig) > 6 else sig
+    sig = sig[:max_atoms] if len(sig) > max_atoms else sig
     L = len(sig) - 1
     conds = []
     for i in range(L):
@@ -223,8 +250,9 @@ def gen_base(rng, want='strong', family=None, max_tries=400, **kw):
     'weak_or_strong' | 'any'."""
     for _ in range(max_tries):
         fam = family or rng.choices(
-            ['rand', 'chain', 'indep', 'd4', 'multiex', 'conjcons', 'weak'],
-            [6, 1, 2, 0.5, 1.5, 1, 3 if want in ('weak', 'weak_or_strong') else 0])[0]
+            ['rand', 'chain', 'indep', 'd4', 'multiex', 'conjcons', 'wide', 'weak'],
+            [6, 1, 2, 0.5, 1.5, 1, 0.7 if want in ('strong', 'weak_or_strong', 'any') else 0,
+             3 if want in ('weak', 'weak_or_strong') else 0])[0]
         if fam == 'rand':
             sig, conds = rand_base(rng, **kw)
         elif fam == 'chain':
@@ -237,9 +265,11 @@ def gen_base(rng, want='strong', family=None, max_tries=400, **kw):
             sig, conds = multi_exception_base(rng)
         elif fam == 'conjcons':
             sig, conds = conj_consequent_base(rng)
+        elif fam == 'wide':
+            sig, conds = wide_base(rng)
         else:
             sig, conds = weak_shape(rng)
-        if conds and len(conds) < 8 and rng.random() < 0.12:
+        if conds and len(conds) < 12 and rng.random() < 0.12:
             # the same conditional stated twice, spelled identically (never changes the consistency class)
             conds = list(conds)
             conds.insert(rng.randrange(len(conds) + 1), rng.choice(conds))
